@@ -79,4 +79,5 @@ func checkC17(c *lib.Ctx) {
 	checkC17Files(c)
 	checkC17Listings(c)
 	checkC17Boundaries(c)
+	checkC17Pairs(c, nil)
 }
